@@ -413,6 +413,10 @@ func oneRound(seed int64, db *badger.DB, round int) {
 			conn.deliver(inCh, &nats.Msg{Subject: "get." + n, Reply: "inbox.x", Data: []byte(`{"cid":"c1"}`)})
 			s.With(n, func(rs res.Resource) { useKept(rs.Group()) })
 			conn.deliver(inCh, &nats.Msg{Subject: "get.test.g." + []string{"x", "y"}[i%2], Reply: "inbox.x", Data: []byte(`{"cid":"c1"}`)})
+			// several requests for the resource of the handler registered through the mount point, back to back
+			for k := 0; k < 3; k++ {
+				conn.deliver(inCh, &nats.Msg{Subject: []string{"get.test.sub.late.1", "call.test.sub.late.1.m", "access.test.sub.late.1"}[k], Reply: "inbox.x", Data: []byte(`{"cid":"c1"}`)})
+			}
 		}
 	})
 	// a hot group: two goroutines submit a few hundred callbacks each to one group as fast as they can, so that
